@@ -33,7 +33,7 @@ def log_format(value):
         # provided, and has reasonable type flags for each, and does
         # not expect positional args.
         value % _log_format_variables
-    except (ValueError, KeyError):
+    except (ValueError, KeyError, OverflowError):
         raise ValueError('Invalid log format string %s' % value)
     return value
 
